@@ -201,7 +201,7 @@ def C16_4_5(ctx, facts):
         ctx.check(any(r.kind == "arg" and r.desc == "port" for r in rr), "set_port|value", "the port written is the parameter", "port roots %s" % sorted(map(repr, rr)), c.where())
         r0 = sp.roots(c.args[0])
         ctx.check(any(r.kind == "call" and r.site.matches(r"Iterator.*::next$|IterMut.*::next$") for r in r0), "set_port|each-element", "it is applied to the element yielded by the iterator", "set_port target roots %s" % sorted(map(repr, sig(r0))), c.where())
-    f = facts.unit(facts.fn("client::conn::transport::tcp::TcpTransport::connect::{closure#0}"))
+    f = facts.unit(facts.fn("client::conn::transport::tcp::TcpTransport::connect::{closure#0}"), expand=True)
     ctx.touched(f)
     spc = f.calls("client::conn::dns::SocketAddrs::set_port")
     cg = f.calls("client::conn::transport::tcp::TcpTransport::connecting")
